@@ -261,6 +261,19 @@ def main(tier):
     e2e_descriptions(chk, tier, rnd)
     e2e_annotations(chk, tier, rnd)
     twin_file_descriptions(chk)
+    for k, (text, iid) in enumerate([('JSIGHT 0.3\nGET /zsame // List the  cats\n  Description\n    List the cats\n  200 any\n', "http GET /zsame"),
+                                     ('JSIGHT 0.3\nGET /zsame /* List\n the cats */\n  Description\n  (\n    List the cats\n  )\n  200 any\n', "http GET /zsame"),
+                                     ('JSIGHT 0.3\nURL /zr\n  Protocol json-rpc-2.0\n  Method zm // Ping\n    Description\n      Ping\n    Result\n    {}\n', "json-rpc-2.0 zm /zr")]):
+        o = harness("run", [rel.case("sa", text)])["sa"]
+        chk.evaluations += 1
+        chk.traces += 1
+        chk.nontrivial.add("same_as_annotation:%d" % k)
+        want = "Ping" if "Ping" in text else "List the cats"
+        got = json.loads(o["json"])["interactions"][iid].get("description") if o["outcome"] == "ok" else None
+        if got != want:
+            sig = {"level": "end-to-end", "what": "description lost", "cls": "equals-annotation"}
+            chk.violation("a Description whose text equals the annotation of its method: description in the catalog %r, written %r | document:\n%s" % (got, want, text),
+                          {"kind": "desc_equals_annotation", "file": text, "signature": sig}, sig)
     chk.sample({"description_alphabet": "ab sp TAB CR LF #", "hosts": list(HOSTS), "line_pool": SAFE_LINES})
     chk.rule = ("function tables exhaustive over the stated alphabets and bounds (see coverage.*_table); end to end: line "
                 "sequences of length 1..3 over the pool under 4 hosts in both spellings; annotations in both spellings")
